@@ -27,6 +27,9 @@ using F = tr::Flavour<float, 3, 4, double, void_data, 0>;
 using F = tr::Flavour<double, 3, 3, double, double, 1, tbx::Morton<double, 3, true>>;
 #elif VH_FL == 10
 using F = tr::Flavour<float, 1, 3, float, long, 3>;
+#elif VH_FL == 11
+#include "spacial/tbfhilbertspaceindex.hpp"
+using F = tr::Flavour<double, 3, 4, double, double, 1, TbfHilbertSpaceIndex<3, TbfSpacialConfiguration<double, 3>, false>>;   // the README's alternative ordering
 #endif
 
 void VH_FN(std::map<std::string, std::vector<tr::Segment>>& out) {
